@@ -464,13 +464,34 @@ func ruleUploadNumbering(r *Run) {
 		found := false
 		for _, ins := range allInstrs(fn) {
 			c, ok := ins.(*ssa.Call)
-			if !ok || calleeName(&c.Call) != "strconv.Itoa" {
+			if !ok {
+				continue
+			}
+			var idxArg ssa.Value
+			if calleeName(&c.Call) == "strconv.Itoa" {
+				idxArg = c.Call.Args[0]
+			} else if h := c.Call.StaticCallee(); h != nil && inModule(h) && h != fn {
+				// a helper of the module that names the part by one of its parameters
+				// (`writeUpload(w, index, upload)`): the argument handed in for it is the name
+				for _, hi := range allInstrs(h) {
+					hc, ok := hi.(*ssa.Call)
+					if !ok || calleeName(&hc.Call) != "strconv.Itoa" {
+						continue
+					}
+					for pi, par := range h.Params {
+						if unwrap(hc.Call.Args[0]) == ssa.Value(par) && pi < len(c.Call.Args) {
+							idxArg = c.Call.Args[pi]
+						}
+					}
+				}
+			}
+			if idxArg == nil {
 				continue
 			}
 			found = true
 			n++
 			// the argument is the index phi of a range-over-slice loop whose slice is an UploadMap
-			idx := unwrap(c.Call.Args[0])
+			idx := unwrap(idxArg)
 			good, why := false, "the name is not the index of the loop over the upload list"
 			loop := innermostLoop(c.Block())
 			if loop != nil {
@@ -715,7 +736,7 @@ func ruleUploadBytes(r *Run) {
 			switch x := ins.(type) {
 			case ssa.CallInstruction:
 				cn := calleeName(x.Common())
-				if byteBounders[cn] && !boundsAnAnswer(cn, x.Common().Args) {
+				if byteBounders[cn] && !boundsAnAnswer(r, fn, cn, x.Common().Args) {
 					r.Check(false, rule, fnName(fn), "call of "+cn, r.P.pos(ins.Pos()), "",
 						"code on the upload path calls "+cn+": a file longer than the bound reaches the owning service cut short (or not at all), without an error")
 				}
@@ -733,7 +754,7 @@ func ruleUploadBytes(r *Run) {
 
 // boundsAnAnswer: the stream handed to the bounding call is the body of a service's HTTP answer
 // (`resp.Body`): a limit on what a service may send back is not a limit on a file.
-func boundsAnAnswer(cn string, args []ssa.Value) bool {
+func boundsAnAnswer(r *Run, fn *ssa.Function, cn string, args []ssa.Value) bool {
 	idx := 0
 	if cn == "io.CopyN" || cn == "net/http.MaxBytesReader" {
 		idx = 1
@@ -741,9 +762,35 @@ func boundsAnAnswer(cn string, args []ssa.Value) bool {
 	if idx >= len(args) {
 		return false
 	}
-	v := args[idx]
+	return isAnswerBody(r, fn, args[idx], 0)
+}
+
+// isAnswerBody: v is `resp.Body` of a *http.Response, or a parameter of fn for which every call
+// site of the module hands in one (a `readBody(r io.Reader, limit)` helper).
+func isAnswerBody(r *Run, fn *ssa.Function, v ssa.Value, depth int) bool {
 	for i := 0; i < 8 && v != nil; i++ {
 		switch x := v.(type) {
+		case *ssa.Parameter:
+			if depth > 2 || x.Parent() != fn {
+				return false
+			}
+			sites := 0
+			for pi, par := range fn.Params {
+				if par != x {
+					continue
+				}
+				for _, e := range r.P.CG.In[origin(fn)] {
+					if e.Site == nil || e.Caller == nil {
+						return false
+					}
+					a := e.Site.Common().Args
+					if pi >= len(a) || !isAnswerBody(r, e.Caller, a[pi], depth+1) {
+						return false
+					}
+					sites++
+				}
+			}
+			return sites > 0
 		case *ssa.MakeInterface:
 			v = x.X
 		case *ssa.ChangeInterface:
